@@ -20,6 +20,7 @@ def plan(tier):
         Q(P, 5, [], env={0: '***'}, wit=(W_OK,)),      # environment: option value is any string
         Q(P, 5, [], env={1: '***'}, wit=(W_OK,)),      # multi-option value list
         Q(P, 5, [], env={2: '***'}),                   # toggle word
+        Q(P, 6, ['--no-t'], env={2: '***'}, wit=(W_OK,)),  # a toggle given (negated) on the command line: the bound variable is not even looked at, whatever it holds
         Q(P, 7, ['***'], env={0: '**'}),               # required option: command line x environment
     ]
     if th:
